@@ -11,6 +11,7 @@ TITLE = "extending needs a matching calendar chain and preserves the signature"
 
 
 def run(prog, chk):
+    extend_request_table(prog, chk)
     replace_table(prog, chk)
     right_link_table(prog, chk)
     chk.explanation = (
@@ -328,3 +329,50 @@ def right_link_table(prog, chk):
         chk.ob("C08.rightlinks", inst, ok, "right links %s vs %s: expected %s; source returns %s"
                % ([v for d, v in la if d == "R"], [v for d, v in lb if d == "R"], "compatible (KSI_OK)" if want else "KSI_INCOMPATIBLE_HASH_CHAIN",
                   hex(q.ret) if isinstance(q.ret, int) else q.ret), loc=fn.loc(), fn=fn, nontrivial=not want)
+
+
+def extend_request_table(prog, chk):
+    """KSI_createExtendRequest: the request carries the signature's aggregation time and, when given, the publication time the caller
+    asked for - unchanged - and is refused when the aggregation time lies after the publication time.  Decision table over the order of
+    the two times and an absent publication time."""
+    from ksirules.interp import TOP, Interp, Ptr, succeed_model
+    from ksirules.model import AnalysisBroken, lvalue_key, strip
+    chk.rule("C08.request", "extend request: aggregation time and publication time passed on unchanged, a start after the end refused (decision table)", floor=5)
+    fn = prog.fn("KSI_createExtendRequest", "signature.c")
+    cp, sp, ep, rp = [p["n"] for p in fn.params]
+    for rel, has_end in (("<", 1), ("=", 1), (">", 1), (None, 0), ("<<", 1)):
+        sets = {}
+        times = {"START": 1000, "END": {"<": 2000, "=": 1000, ">": 999, "<<": (1 << 33) + 5}.get(rel, 0)}
+        if rel == "<<":
+            times["START"] = (1 << 32) + 7     # a start that is smaller only when all 64 bits are compared
+
+        def cmp_(I, p, node, args):
+            a, b = (times.get(getattr(x, "what", None)) for x in args[:2])
+            return TOP if a is None or b is None else (a > b) - (a < b)
+
+        def setter(name):
+            def f(I, p, node, args):
+                sets[name] = args[1]
+                return 0
+            return f
+        ov = {"KSI_Integer_compare": cmp_, "KSI_Integer_getUInt64": lambda I, p, n, a: times.get(getattr(a[0], "what", None), TOP),
+              "KSI_ExtendReq_new": lambda I, p, n, a: (I.write(p, lvalue_key(strip(n["a"][1])["e"], I.fn), Ptr("REQ")), 0)[1],
+              "KSI_ExtendReq_setAggregationTime": setter("aggregation"), "KSI_ExtendReq_setPublicationTime": setter("publication"),
+              "KSI_Integer_ref": lambda I, p, n, a: a[0], "KSI_Integer_free": lambda I, p, n, a: TOP, "KSI_ExtendReq_free": lambda I, p, n, a: TOP}
+        inputs = {cp: Ptr("ctx"), sp: Ptr("START"), ep: Ptr("END") if has_end else 0, rp: Ptr("OUT")}
+        I = Interp(fn, inputs=inputs, call_model=succeed_model(prog, ov), on_unknown="stop", prog=prog)
+        paths = I.run()
+        chk.paths += len(paths)
+        inst = "extend request[aggregation time %s publication time]" % ({"<": "before the", "=": "equal to the", ">": "after the", "<<": "before (only in the upper 32 bits) the"}.get(rel, "without a"))
+        if len(paths) != 1 or paths[0].undetermined or paths[0].ret is TOP:
+            raise AnalysisBroken("KSI_createExtendRequest: evaluation not determined for %s: %s" % (inst, [q.undetermined[:1] for q in paths]))
+        q = paths[0]
+        out = [t[2] for t in q.stores("*" + rp)] + [t[2] for t in q.stores("OUT")]
+        if rel == ">":
+            ok = q.ret != 0 and not any(v not in (0, None) for v in out)
+            what = "expected a refusal and no request; source: status %s, handed out %s" % (hex(q.ret) if isinstance(q.ret, int) else q.ret, out)
+        else:
+            ok = q.ret == 0 and out[-1:] == [Ptr("REQ")] and sets.get("aggregation") == Ptr("START") and sets.get("publication") == (Ptr("END") if has_end else None)
+            what = "expected KSI_OK with aggregation time = the caller's start and publication time = %s; source: status %s, request %s, times set %s" % (
+                "the caller's end" if has_end else "unset", q.ret, out, sets)
+        chk.ob("C08.request", inst, ok, what, loc=fn.loc(), fn=fn)
